@@ -132,20 +132,22 @@ def soleChildL (cs : List LNode) : Option Nat :=
   | [p] => some p
   | _ => none
 
+/-- `Trie.resolve`: a hash node is loaded, anything else returned as is -/
+def resolveL (st : Store) (gen : Nat) (n : LNode) : Option LNode :=
+  match n with
+  | .hash h => resolveHash st gen h
+  | c => some c
+
 /-- the branch reduction at the end of `delete` on a full node (`n` already has the child replaced) -/
 def reduceL (st : Store) (gen : Nat) (cs' : List LNode) : Option LNode :=
   match soleChildL cs' with
   | some pos =>
     if pos != 16 then
       -- `cnode, err := t.resolve(n.Children[pos], prefix)`
-      let child := cs'.getD pos .nil
-      let cnode := match child with
-        | .hash h => resolveHash st gen h
-        | c => some c
-      cnode.map (fun cn =>
+      (resolveL st gen (cs'.getD pos .nil)).map (fun cn =>
         match cn with
         | .short ck cv _ => .short (pos :: ck) cv (newFlag gen)
-        | _ => .short [pos] child (newFlag gen))
+        | _ => .short [pos] (cs'.getD pos .nil) (newFlag gen))
     else some (.short [pos] (cs'.getD pos .nil) (newFlag gen))
   | none => some (.full cs' (newFlag gen))
 
